@@ -45,7 +45,8 @@ def r1_who_may_call(ctx) -> None:
     for q, f in sorted(prog.funcs.items()):
         if not f.module.name.startswith(("sigma.processing", "sigma.conversion", "sigma.pipelines")):
             continue
-        for c in (x for x in walk_no_nested(f.node) if isinstance(x, ast.Call) and isinstance(x.func, ast.Attribute) and x.func.attr == "apply"):
+        for c in (x for x in ast.walk(f.node) if isinstance(x, ast.Call) and isinstance(x.func, ast.Attribute) and x.func.attr == "apply"
+                  and (x in set(walk_no_nested(f.node)) or any(isinstance(a_, ast.Lambda) for a_ in prog.ancestors(x)))):  # lambdas of this function included
             recv = unparse(c.func.value)
             loc = f"{f.module.relpath}:{c.lineno}"
             if recv.endswith("transformation"):
